@@ -27,6 +27,16 @@ def run_ops(ck, drv, cases, want="valid", label="ops", trace_module="TraceOps", 
     mism, st = vlib.validate_traces(trace_module, files, env=env)
     ck.add_trace_stats(st, len(cases))
     ck.checker_cmds.append(f"TRACE=<events> tlc -config spec/{trace_module}.cfg spec/{trace_module}.tla")
+    # a time-out may be the machine, not the code: such cases run once more, alone and with a long limit, before they count
+    slow = [m for m in mism if str(m["event"].get("res", {}).get("crash", "")).startswith("timeout")]
+    if slow and len(slow) <= 50:
+        ids = {m["event"].get("id") for m in slow}
+        again = [c for c in cases if c.get("id") in ids]
+        files2 = vlib.run_driver(drv, again, ck.workdir, label + "_retry", nproc=4, case_timeout=60)
+        mism2, _ = vlib.validate_traces(trace_module, files2, env=env)
+        still = {m["event"].get("id") for m in mism2}
+        mism = [m for m in mism if m not in slow or m["event"].get("id") in still]
+        ck.extra["timeouts_retried"] = ck.extra.get("timeouts_retried", 0) + len(slow)
     n = 0
     for m in mism:
         ev = m["event"]
